@@ -24,7 +24,8 @@ FLOATS = ["f4", "f8", "c8", "c16"]
 
 @st.composite
 def snip_case(draw):
-    spec = draw(G.signal_spec(nmin=1, nmax=128, dtypes=FLOATS, nchan_max=3, max_trailing=1, data_kinds=("noise", "index", "tone")))
+    # (integer samples are admitted by Signal / RadioSignal: a fractional request must then give interpolated -- floating -- values)
+    spec = draw(G.signal_spec(nmin=1, nmax=128, dtypes=FLOATS + ["i8"], nchan_max=3, max_trailing=1, data_kinds=("noise", "index", "tone")))
     N = spec["n"]
     n = draw(st.one_of(st.integers(0, N), st.sampled_from([0, N, 1, max(0, N - 1)])))
     forms = ["int", "float", "dur", "dt", "qsamp", "npint", "npfloat", "arr0"] + (["time"] if spec["t0"] else [])
@@ -41,7 +42,7 @@ def snip_case(draw):
 
 def to_arg(case, z):
     """-> (argument, effective t in samples as Fraction or None if ambiguous, whole: bool)"""
-    t = F(case["i"]) + F(case["frac"], 1024)
+    t = F(case["i"]) + (F(*case["fracq"]) if case.get("fracq") else F(case["frac"], 1024))
     form = case["form"]
     rate = rate_hz(z)
     if form in ("npint", "npfloat", "arr0"):
@@ -124,7 +125,13 @@ def run_snip(case, stt):
         y = pb.snippet(z, arg, n_arg)
     contract(y, "snippet")
     check(len(y) == n, "snippet returned {} samples, requested {}", len(y), n)
-    check(type(y) is type(z) and y.shape[1:] == z.shape[1:] and y.data.dtype == x.dtype, "type/sample shape/dtype changed")
+    check(type(y) is type(z) and y.shape[1:] == z.shape[1:], "type/sample shape changed")
+    if x.dtype.kind in "iu" and not whole and abs(teff - round(teff)) <= F(1, 10**8):
+        pass  # time_shift documents shifts up to 1e-8 sample as no shift: the samples may come back as they are
+    elif x.dtype.kind in "iu" and not whole:
+        check(y.data.dtype.kind == "f", "fractional request on integer samples returned dtype {} (interpolated values are not integers)", y.data.dtype)
+    else:
+        check(y.data.dtype == x.dtype, "dtype changed: {} -> {}", x.dtype, y.data.dtype)
     same_meta(y, z, "snippet: ")
     rate = rate_hz(z)
     if n > 0 or True:
@@ -195,14 +202,20 @@ def run_hist(case, stt):
 
 @st.composite
 def long_case(draw):
-    N = draw(st.sampled_from([1500, 2048, 3001, 4096, 5000]))
+    N = draw(st.sampled_from([1500, 2048, 3001, 4096, 5000, 5000, 65537, 131072, 200000]))
     spec = draw(G.signal_spec(classes=["Signal", "BasebandSignal", "IntensitySignal"], nmin=N, nmax=N, dtypes=FLOATS, nchan_max=2, max_trailing=0,
                               data_kinds=("noise",)))
     spec["n"] = N
     n = draw(st.sampled_from([1, 8, 16, 32, 100, N // 2]))
     i = draw(st.integers(0, N - n - 1))
-    return {"sig": spec, "form": draw(st.sampled_from(["float", "float", "dur", "time" if spec["t0"] else "float"])), "i": i,
-            "frac": draw(st.sampled_from([256, 512, 1, 1023, 0, 333])), "n": n, "dur_unit": "s"}
+    out = {"sig": spec, "form": draw(st.sampled_from(["float", "float", "dur", "time" if spec["t0"] else "float"])), "i": i,
+           "frac": draw(st.sampled_from([256, 512, 1, 1023, 0, 333])), "n": n, "dur_unit": "s"}
+    if N > 10000:
+        # far into a long signal, a start a small fraction of a sample after a whole one (a snapping radius that grows with t would swallow it)
+        out["i"] = draw(st.integers(min(N // 2, N - n - 1), N - n - 1))
+        out["fracq"] = draw(st.sampled_from([[1, 2**14], [1, 2**14], [3, 50000], [1, 10**5], [1, 2**12], [1, 2]]))
+        out["frac"] = 1
+    return out
 
 
 @st.composite
